@@ -1,0 +1,9 @@
+//go:build verif
+
+// Contracts for the deductive verifier in /verif (comment-only; compiled only with -tags verif).
+package cli
+
+// -f FILE holds exactly the bytes handed over (ghost file system of /verif/spec/os.gspec) (C18)
+//@ func writeBufToFile
+//@   modifies diskContent { r | r == filepath }
+//@   ensures [C18] exact: res == nil ==> diskContent(filepath) == bytesOf(buf)
